@@ -2,6 +2,7 @@ package props
 
 import (
 	"bufio"
+	"bytes"
 	"errors"
 	"fmt"
 	"io"
@@ -662,6 +663,7 @@ func C02(r *core.Run) {
 	c02H2(r, md, serverBin, agentBin)
 	c02Full(r, md, serverBin, agentBin)
 	c02BackendComesUpLate(r, md, agentBin)
+	c02FetchCut(r, md, serverBin, agentBin)
 	<-slowDone
 	judgeProcs(r, true, server, agent)
 	killAll(agent, server)
@@ -1126,4 +1128,145 @@ func c02BackendComesUpLate(r *core.Run, md *fakes.Metadata, agentBin string) {
 	}
 	r.Add("late_backend_requests_that_reached_the_backend", reached)
 	judgeProcs(r, true, agent)
+}
+
+// c02FetchCut: real stand-alone proxy and real agent with a byte relay
+// between them that cuts the agent's first fetch of a marked request inside the
+// serialised request's header block (a connection break on the agent-proxy
+// leg). The request may be lost; but whatever reaches the backend, by whatever
+// retry, must be the client's request with its complete body.
+func c02FetchCut(r *core.Run, md *fakes.Metadata, serverBin, agentBin string) {
+	server, saddr, err := startServer(r, serverBin, "server-cut")
+	if err != nil {
+		r.Broken(err.Error())
+		return
+	}
+	defer server.Kill()
+	rec, err := newRecorder()
+	if err != nil {
+		r.Broken(err.Error())
+		return
+	}
+	defer rec.Srv.Close()
+	rl, err := net.Listen("tcp", "127.0.0.1:0")
+	if err != nil {
+		r.Broken(err.Error())
+		return
+	}
+	defer rl.Close()
+	var cmu sync.Mutex
+	cutDone := map[string]bool{} // marker values already cut once
+	var cuts int64
+	go func() {
+		for {
+			ac, err := rl.Accept()
+			if err != nil {
+				return
+			}
+			go func(ac net.Conn) {
+				defer ac.Close()
+				pc, err := net.DialTimeout("tcp", saddr, 5*time.Second)
+				if err != nil {
+					return
+				}
+				defer pc.Close()
+				go func() { io.Copy(pc, ac); pc.(*net.TCPConn).CloseWrite() }()
+				// proxy -> agent: forward until a not yet used cut marker shows up, then drop the connection right before it
+				buf := make([]byte, 0, 64<<10)
+				tmp := make([]byte, 16<<10)
+				const marker = "X-Cut-Here: "
+				for {
+					n, err := pc.Read(tmp)
+					buf = append(buf, tmp[:n]...)
+					if i := bytes.Index(buf, []byte(marker)); i >= 0 && len(buf) >= i+len(marker)+12 {
+						val := string(buf[i+len(marker) : i+len(marker)+12])
+						cmu.Lock()
+						first := !cutDone[val]
+						cutDone[val] = true
+						cmu.Unlock()
+						if first {
+							ac.Write(buf[:i])
+							atomic.AddInt64(&cuts, 1)
+							if tc, ok := ac.(*net.TCPConn); ok {
+								tc.SetLinger(0)
+							}
+							return
+						}
+					}
+					// keep a possible partial marker back
+					keep := 0
+					if i := bytes.Index(buf, []byte("X-Cut")); i >= 0 && len(buf)-i < len(marker)+12 && err == nil {
+						keep = len(buf) - i
+					}
+					if _, werr := ac.Write(buf[:len(buf)-keep]); werr != nil {
+						return
+					}
+					buf = append(buf[:0], buf[len(buf)-keep:]...)
+					if err != nil {
+						return
+					}
+				}
+			}(ac)
+		}
+	}()
+	agent, err := startAgent(r, agentBin, "agent-cut", md, "http://"+rl.Addr().String()+"/", rec.Srv.Addr(), "b1")
+	if err != nil {
+		r.Broken(err.Error())
+		return
+	}
+	defer agent.Kill()
+	if err := waitReady(saddr, agent, server); err != nil {
+		r.Inconclusive("C02 fetch-cut lane: " + err.Error())
+		return
+	}
+	rng := r.Rand("c02-cut")
+	var gens []*genReq
+	var wg sync.WaitGroup
+	for k := 0; k < 6; k++ {
+		g := &genReq{Tok: fmt.Sprintf("s%dcut%d", r.Seed, k), Method: []string{"POST", "PUT", "POST"}[k%3], Host: "cut.example", Chunked: k%2 == 1}
+		g.Target = "/cut/" + g.Tok
+		g.BodyLen = []int{300, 2 << 20, 70000}[k%3]
+		g.body = make([]byte, g.BodyLen)
+		rng.Read(g.body)
+		g.Chunks = []int{g.BodyLen}
+		if k < 4 {
+			// (the last two are not cut: the relay itself must be transparent)
+			g.Fields = append(g.Fields, rawhttp.Field{Name: "X-Cut-Here", Value: fmt.Sprintf("%012d", int(tokHash(g.Tok)%1000000000000))})
+		}
+		g.Fields = append(g.Fields, rawhttp.Field{Name: "X-Tok", Value: g.Tok})
+		g.Class = fmt.Sprintf("%s|fetch-cut-inside-header=%v|body:%s|chunked=%v", g.Method, k < 4, sizeClass(g.BodyLen), g.Chunked)
+		gens = append(gens, g)
+		wg.Add(1)
+		go func(g *genReq) {
+			defer wg.Done()
+			// the request may never be answered (the agent may give the cut request up): the client's view is not judged
+			cl := rawhttp.NewClient(saddr, 6*time.Second)
+			defer cl.Close()
+			cl.Do(g.wire(), g.Method)
+		}(g)
+	}
+	wg.Wait()
+	time.Sleep(500 * time.Millisecond)
+	reached := 0
+	for k, g := range gens {
+		r.Case(g.Class)
+		got, perr := rec.get(g.Tok)
+		if len(got) == 0 {
+			if k >= 4 {
+				r.Inconclusive(fmt.Sprintf("C02 fetch-cut lane: request %s, which was not cut, did not reach the backend", g.Tok))
+			}
+			continue
+		}
+		reached++
+		if perr != "" {
+			r.Violate("C02:backend-parse-error:after-fetch-cut", fmt.Sprintf("a request whose first fetch was cut inside its header block reached the backend damaged: %s (body got %d of %d bytes)", perr, len(got[0].Body), g.BodyLen), g, nil)
+			continue
+		}
+		if bad := compareRequest(g, got[0]); len(bad) > 0 {
+			r.Violate("C02:"+diffKind(bad[0])+":after-fetch-cut", fmt.Sprintf("%s %s reached the backend after its first fetch had been cut inside the header block: %s", g.Method, g.Target, strings.Join(bad, "; ")), g, nil)
+		}
+	}
+	r.Add("fetches_cut_inside_the_header_block", int(atomic.LoadInt64(&cuts)))
+	r.Add("cut_lane_requests_that_reached_the_backend", reached)
+	judgeProcs(r, true, agent, server)
 }
